@@ -1,12 +1,22 @@
-/- Driver.OpsJson — Map.Json / NewMapJson / string literals (C06). -/
+/- Driver.OpsJson — Map.Json / Map.JsonIndent / NewMapJson / string literals (C06). -/
 import Driver.Util
 import Mxj.Model.Json
+import Mxj.Model.Forms
 namespace Mxj.Drv
 open Mxj Mxj.Proto
 
 def opJenc : P Out := do
   let safe ← pBool; let m ← pVal; pEnd
   pure ("ok " ++ showStr (Json.mapJson safe m))
+
+/-- `jenci safe prefix indent map` → `ok <bytes of Map.JsonIndent(prefix, indent, safe)>` followed by
+    what the model's `NewMapJson` makes of those bytes (`ok <val>` / `err`) -/
+def opJenci : P Out := do
+  let safe ← pBool; let pfx ← pStr; let ind ← pStr; let m ← pVal; pEnd
+  let b := Forms.mapJsonIndent safe pfx ind m
+  pure ("ok " ++ showStr b ++ " " ++ (match Json.newMapJson b with
+    | some v => "ok " ++ showVal v
+    | none => "err"))
 
 def opJquote : P Out := do
   let html ← pBool; let s ← pStr; pEnd
